@@ -375,6 +375,9 @@ def main() -> int:
     except ValueError:
         seed = 1
     try:
+        import logging  # pylint: disable=import-outside-toplevel
+
+        logging.disable(logging.CRITICAL)
         _check_repo_import()
         if args.replay:
             return cmd_replay(args.pid, Path(args.replay))
